@@ -101,6 +101,23 @@ async fn publish_scenarios() {
     let s = service(store.clone(), SignedEntityTypeDiscriminants::all(), Arc::new(SignedEntityTypeLock::new()), signer, publisher);
     assert!(s.compute_publish_single_signature(&beacon, &message).await.is_err(), "a failed publication is reported as success");
     assert!(store.signed.lock().unwrap().is_empty(), "the beacon was marked as signed although the publication FAILED (the signature is lost)");
+    // every kind of refusal by the aggregator counts (a 4XX answer is what the aggregator gives while it has not opened the message yet)
+    for kind in 0..3 {
+        let store = Arc::new(MemoryBeaconStore::default());
+        let mut signer = MockSingleSigner::new();
+        let sig = signature.clone();
+        signer.expect_compute_single_signature().returning(move |_| Ok(Some(sig.clone())));
+        let mut publisher = MockSignaturePublisher::new();
+        publisher.expect_publish().returning(move |_, _, _| Err(match kind {
+            0 => mithril_aggregator_client::AggregatorHttpClientError::RemoteServerLogical(anyhow::anyhow!("404 open message not found")).into(),
+            1 => mithril_aggregator_client::AggregatorHttpClientError::RemoteServerTechnical(anyhow::anyhow!("500")).into(),
+            _ => mithril_aggregator_client::AggregatorHttpClientError::RemoteServerUnreachable(anyhow::anyhow!("unreachable")).into(),
+        }));
+        let s = service(store.clone(), SignedEntityTypeDiscriminants::all(), Arc::new(SignedEntityTypeLock::new()), signer, publisher);
+        let r = s.compute_publish_single_signature(&beacon, &message).await;
+        assert!(store.signed.lock().unwrap().is_empty(), "the beacon was marked as signed although the aggregator REFUSED the signature (refusal kind {}): it is never sent again", kind);
+        assert!(r.is_err(), "a refused publication (kind {}) is reported as success", kind);
+    }
 }
 
 #[tokio::test]
